@@ -9,9 +9,9 @@
    the weights (None = inf), the incidence lists linc/rinc (lists of edge
    indices, Python list semantics incl. `remove` raising ValueError = None
    here), the sufficient statistics (count, sum, sum of squares) per node,
-   parent and height.  `np.argsort` on the small incidence arrays is taken to be
-   stable (oracle; the correspondence tests it), `argmin` returns the first
-   minimum.  Executable definitions only. *)
+   parent and height.  `np.argsort`'s order among equal keys is an oracle stream
+   recorded on the running code (see sorted_pairs_with), `argmin` returns the
+   first minimum.  Executable definitions only. *)
 From Coq Require Import List Bool ZArith QArith Arith.
 From NV.Generated Require Import ClusteringFrags.
 From NV.C14 Require Import Model.
@@ -163,13 +163,38 @@ Definition kill_edge (s : wstate) (e : nat) : wstate :=
   mk_wstate (upd (w_edges s) e None) (upd (w_weights s) e None) (w_linc s) (w_rinc s)
             (w_cnt s) (w_sum s) (w_sq s) (w_parent s) (w_height s).
 
+(* np.argsort's order among EQUAL keys is unspecified (the SIMD sorts of current NumPy are not
+   stable, even on 4 elements), and it decides which of two duplicate edges survives.  The
+   permutations the running code obtained are recorded by the harness and passed in as an
+   oracle stream; each is validated (a permutation that sorts the keys) before use.  With an
+   empty stream the stable order is used (Coq-side examples). *)
+Definition valid_argsort (keys perm : list nat) : bool :=
+  Nat.eqb (length perm) (length keys)
+  && forallb (fun i => existsb (Nat.eqb i) perm) (seq 0 (length keys))
+  && (fix sorted (l : list nat) : bool :=
+        match l with
+        | a :: ((b :: _) as r) => Nat.leb (nth a keys O) (nth b keys O) && sorted r
+        | _ => true
+        end) perm.
+
+Definition sorted_pairs_with (keys : list nat) (orc : list (list nat)) : option (list (nat * nat) * list (list nat)) :=
+  match orc with
+  | [] => Some (sort_pairs keys, [])
+  | perm :: rest => if valid_argsort keys perm then Some (map (fun pos => (nth pos keys O, pos)) perm, rest) else None
+  end.
+
 (* "remove double edges", one side.  left = true: duplicates among linc[k] by right endpoint *)
-Definition dedupe (left : bool) (k : nat) (s : wstate) : option wstate :=
+Definition dedupe (left : bool) (k : nat) (so : wstate * list (list nat)) : option (wstate * list (list nat)) :=
+  let (s, orc) := so in
   let idxk := get_inc left s k in
+  match idxk with
+  | [] => Some (s, orc)                   (* `if np.size(idxk) > 0:` - no argsort call *)
+  | _ =>
   let corr := map (fun e => match nth e (w_edges s) None with
                             | Some (a, b) => S (if left then b else a) | None => O end) idxk in
-  let dups := dup_positions (sort_pairs corr) in
-  fold_left (fun os pos =>
+  do sp <- sorted_pairs_with corr orc ;;
+  let dups := dup_positions (fst sp) in
+  do s' <- fold_left (fun os pos =>
       do s <- os ;;
       let i2 := nth pos idxk O in
       match nth i2 (w_edges s) None with
@@ -181,12 +206,14 @@ Definition dedupe (left : bool) (k : nat) (s : wstate) : option wstate :=
           let s2 := kill_edge s1 i2 in
           do lk <- py_remove i2 (get_inc left s2 k) ;;
           Some (set_inc left s2 k lk)
-      end) dups (Some s).
+      end) dups (Some s) ;;
+  Some (s', snd sp)
+  end.
 
 Definition is_tomb (s : wstate) (e : nat) : bool :=
   match nth e (w_edges s) None with None => true | Some _ => false end.
 
-Definition remap (d i j k : nat) (s : wstate) : option wstate :=
+Definition remap (d i j k : nat) (s : wstate) (orc : list (list nat)) : option (wstate * list (list nat)) :=
   do s <- reweight d true k (get_inc true s i) s ;;
   do s <- reweight d false k (get_inc false s i) s ;;
   do s <- reweight d true k (get_inc true s j) s ;;
@@ -197,11 +224,12 @@ Definition remap (d i j k : nat) (s : wstate) : option wstate :=
   let rk := get_inc false s j ++ get_inc false s i in
   let rk := py_prune (length rk) (is_tomb s) rk 0 in
   let s := set_inc false (set_inc false (set_inc false s k rk) i []) j [] in
-  do s <- dedupe true k s ;;
-  dedupe false k s.
+  do so <- dedupe true k (s, orc) ;;
+  dedupe false k so.
 
 (* ---- one iteration of the loop of `ward` --------------------------------- *)
-Definition ward_step (int1 : bool) (d n q : nat) (s : wstate) : option wstate :=
+Definition ward_step (d n q : nat) (so : wstate * list (list nat)) : option (wstate * list (list nat)) :=
+  let (s, orc) := so in
   let m := argmin (w_weights s) in
   let k := (q + n)%nat in
   match nth m (w_edges s) None, nth m (w_weights s) None with
@@ -218,16 +246,13 @@ Definition ward_step (int1 : bool) (d n q : nat) (s : wstate) : option wstate :=
       let back := filter (fun e => match nth e (w_edges s) None with Some (_, b) => Nat.eqb b i | None => false end) ml in
       do s <- match back with
               | [] => Some s
-              | [m2] =>
-                  (* `int(np.flatnonzero(...))` of a 1-element array: allowed by older NumPy, a
-                     TypeError in the NumPy this run uses; measured by the harness (int1) *)
-                  if negb int1 then None else
+              | m2 :: _ =>
+                  (* m = ml[int(np.flatnonzero(K.edges[ml, 1] == i)[0])]: the first match (6608ba6) *)
                   let s := kill_edge s m2 in
                   do lj <- py_remove m2 (get_inc true s j) ;;
                   let s := set_inc true s j lj in
                   do ri <- py_remove m2 (get_inc false s i) ;;
                   Some (set_inc false s i ri)
-              | _ => None                 (* int() of an array with more than one element *)
               end ;;
       let d_ := d in
       let s := mk_wstate (w_edges s) (w_weights s) (w_linc s) (w_rinc s)
@@ -235,19 +260,21 @@ Definition ward_step (int1 : bool) (d n q : nat) (s : wstate) : option wstate :=
                  (upd (w_sum s) k (vadd d_ (nth i (w_sum s) []) (nth j (w_sum s) [])))
                  (upd (w_sq s) k (vadd d_ (nth i (w_sq s) []) (nth j (w_sq s) [])))
                  (upd (upd (w_parent s) i k) j k) (w_height s) in
-      remap d i j k s
+      remap d i j k s orc
   | None, _ => None                       (* argmin over an all-inf array picks a tombstone *)
   end.
 
-Fixpoint ward_loop (int1 : bool) (d n : nat) (steps q : nat) (s : wstate) : option wstate :=
+Fixpoint ward_loop (d n : nat) (steps q : nat) (s : wstate * list (list nat)) : option (wstate * list (list nat)) :=
   match steps with
   | O => Some s
-  | S r => do s' <- ward_step int1 d n q s ;; ward_loop int1 d n r (S q) s'
+  | S r => do s' <- ward_step d n q s ;; ward_loop d n r (S q) s'
   end.
 
 (* ward(G, feature): parents and heights of the WeightedForest *)
-Definition ward (int1 : bool) (d n : nat) (G : list (nat * nat)) (feat : list vec) : option (list nat * list Q) :=
-  do s <- ward_loop int1 d n (n - nbcc n G) 0 (init_state d n G feat) ;;
+(* orc: the argsort results observed on the running code, in call order ([] = stable order) *)
+Definition ward (d n : nat) (G : list (nat * nat)) (feat : list vec) (orc : list (list nat)) : option (list nat * list Q) :=
+  do so <- ward_loop d n (n - nbcc n G) 0 (init_state d n G feat, orc) ;;
+  let s := fst so in
   Some (w_parent s, w_height s).
 
 (* ---- WeightedForest ------------------------------------------------------ *)
@@ -316,7 +343,9 @@ Definition split (parents : list nat) (height : list Q) (k : nat) : option (list
 Definition list_of_subtrees (n : nat) (parents : list nat) : list (list nat) :=
   let V := length parents in
   let init := map (fun i => if Nat.ltb i n then [i] else []) (seq 0 V) in
-  let lst := fold_left (fun lst i => let j := nth i parents O in upd lst j (nth i lst [] ++ nth j lst []))
+  let lst := fold_left (fun lst i => let j := nth i parents O in
+                                     if Nat.eqb j i then lst          (* `if j != i:` (98e9feb) *)
+                                     else upd lst j (nth i lst [] ++ nth j lst []))
                        (seq 0 (V - 1)) init in
   skipn n lst.
 
@@ -334,13 +363,14 @@ Definition ward_segment_u (n : nat) (parents : list nat) (height : list Q) (stop
   Some (if Nat.ltb (maxl u1) (maxl u2) then u2 else u1).
 
 (* ---- comparison helpers --------------------------------------------------- *)
-Definition ward_agrees (int1 : bool) (d n : nat) (G : list (nat * nat)) (feat : list vec) (parents : list nat) (height : list Q) : bool :=
-  match ward int1 d n G feat with
-  | Some (p, h) => nats_eqb p parents && qvec_eqb h height
+Definition ward_agrees (d n : nat) (G : list (nat * nat)) (feat : list vec) (orc : list (list nat)) (parents : list nat) (height : list Q) : bool :=
+  match ward_loop d n (n - nbcc n G) 0 (init_state d n G feat, orc) with
+  | Some (s, rest) => nats_eqb (w_parent s) parents && qvec_eqb (w_height s) height
+                      && match rest with [] => true | _ => false end     (* every observed argsort call was consumed *)
   | None => false
   end.
-Definition ward_raises (int1 : bool) (d n : nat) (G : list (nat * nat)) (feat : list vec) : bool :=
-  match ward int1 d n G feat with Some _ => false | None => true end.
+Definition ward_raises (d n : nat) (G : list (nat * nat)) (feat : list vec) (orc : list (list nat)) : bool :=
+  match ward d n G feat orc with Some _ => false | None => true end.
 Definition onats_eqb (a b : option (list nat)) : bool :=
   match a, b with Some x, Some y => nats_eqb x y | None, None => true | _, _ => false end.
 
